@@ -68,7 +68,8 @@ pub struct Finding {
 
 struct Inner {
     violations: Vec<(Finding, PathBuf)>,
-    known_hits: BTreeMap<String, (String, u64)>,
+    /// id -> (description, matches, most recent matching finding)
+    known_hits: BTreeMap<String, (String, u64, Option<Finding>)>,
     samples: Vec<Value>,
     outcomes: BTreeMap<String, u64>,
     seen_sigs: BTreeMap<String, u64>,
@@ -140,8 +141,9 @@ impl Report {
             if k["status"] == "known" && k["signature"] == f.signature {
                 let id = k["id"].as_str().unwrap_or("?").to_string();
                 let mut g = self.inner.lock().unwrap();
-                let ent = g.known_hits.entry(id).or_insert((k["description"].as_str().unwrap_or("").to_string(), 0));
+                let ent = g.known_hits.entry(id).or_insert((k["description"].as_str().unwrap_or("").to_string(), 0, None));
                 ent.1 += 1;
+                ent.2 = Some(f);
                 return true;
             }
         }
@@ -171,7 +173,33 @@ impl Report {
     /// Write the evidence file, print verdict lines, return the process exit code.
     /// `coverage` must contain the level's required keys; samples/outcomes are merged in.
     pub fn finish(&self, level: &str, mut coverage: Value, assumptions: Vec<String>, part: Option<&str>) -> i32 {
-        let g = self.inner.lock().unwrap();
+        let mut g = self.inner.lock().unwrap();
+        // A listed finding is a class of failing inputs; the file also records how many inputs of the class fail on the
+        // unchanged tree in this tier and build profile ("max_matches"). More matches than that means that an input
+        // which is not part of the listed finding fails too: a violation the file does not list.
+        let count_key = format!("{}.{}", if self.tier == Tier::Quick { "quick" } else { "thorough" }, self.profile);
+        let mut exceeded: Vec<(String, u64, u64, Finding)> = Vec::new();
+        if part.is_none() {
+            for (id, (_, n, last)) in g.known_hits.iter() {
+                let listed = self.known.iter().find(|k| k["id"] == id.as_str()).and_then(|k| k["max_matches"][&count_key].as_u64());
+                if let (Some(max), Some(f)) = (listed, last) {
+                    if *n > max {
+                        exceeded.push((id.clone(), *n, max, f.clone()));
+                    }
+                }
+            }
+        }
+        for (id, n, max, f) in exceeded {
+            let sig = json!({"check": "more_failing_inputs_than_listed", "known_finding": id});
+            let h = crate::snap::digest(&format!("{}{}", sig, f.replay));
+            let path = PathBuf::from(format!("{VERIF_ROOT}/replays/{}-{:016x}.json", self.property, (h >> 64) as u64));
+            let description = format!("{n} inputs match the class of listed finding {id}, but only {max} do on the unchanged tree ({count_key}): at least {} failing input(s) are not part of the listed finding (replay: the most recent match of the class) -- {}", n - max, f.description);
+            let doc = json!({"property": self.property, "profile": self.profile, "signature": sig, "description": description, "replay": f.replay});
+            let _ = std::fs::create_dir_all(format!("{VERIF_ROOT}/replays"));
+            let _ = std::fs::write(&path, serde_json::to_string_pretty(&doc).unwrap());
+            *g.seen_sigs.entry(sig.to_string()).or_default() += n - max;
+            g.violations.push((Finding { signature: sig, description, replay: f.replay }, path));
+        }
         let total_viol: u64 = g.seen_sigs.values().sum();
         if coverage.get("samples").is_none() {
             coverage["samples"] = Value::Array(g.samples.clone());
@@ -196,7 +224,7 @@ impl Report {
         };
         let _ = std::fs::create_dir_all(format!("{VERIF_ROOT}/evidence/parts"));
         std::fs::write(&name, serde_json::to_string_pretty(&ev).unwrap()).expect("write evidence part");
-        for (id, (desc, n)) in &g.known_hits {
+        for (id, (desc, n, _)) in &g.known_hits {
             let sig = self.known.iter().find(|k| k["id"] == id.as_str()).map(|k| k["signature"].to_string()).unwrap_or_default();
             let short: String = desc.chars().take(200).collect();
             println!("KNOWN-FINDING: property={} [{}] {} -- {} (matched {} times)", self.property, id, sig, short, n);
